@@ -226,6 +226,9 @@ def scenarios():
     for deco in ("require", "ensure", "invariant"):
         cond = "lambda self: True" if deco == "invariant" else "lambda: True"
         for tag, expr, exc in (("error-int", "42", "ValueError"), ("error-str", "'oops'", "ValueError"), ("error-non-exception-class", "dict", "ValueError"),
+                               # (invalid values which are falsy: only None means that no error was given)
+                               ("error-zero", "0", "ValueError"), ("error-empty-str", "''", "ValueError"), ("error-false", "False", "ValueError"),
+                               ("error-empty-tuple", "()", "ValueError"), ("error-empty-dict", "{}", "ValueError"),
                                ("error-builtin", "print", "ValueError"), ("error-partial", "functools.partial(ValueError, 'x')", "ValueError"),
                                ("control-error-class", "ValueError", None), ("control-error-instance", "ValueError('x')", None),
                                ("control-error-lambda", "lambda: ValueError('x')", None)):
